@@ -42,11 +42,14 @@ type c10Director struct {
 	lines   int
 	second  bool
 	fin     []string
+	handler   *fpgo.HandlerDef // SubscribeOn variant: deliveries are posted to it
+	hGid      int64
+	delivered chan struct{}
 }
 
 func (d *c10Director) line(e string, s string, extra E) {
 	d.mu.Lock()
-	m := E{"e": e, "s": s, "run": d.run, "n": 0, "mode": "-", "final": []string{}, "why": "-"}
+	m := E{"e": e, "s": s, "run": d.run, "n": 0, "mode": "-", "final": []string{}, "why": "-", "thr": "-", "h": false}
 	for k, v := range extra {
 		m[k] = v
 	}
@@ -76,9 +79,19 @@ func (d *c10Director) subscribe(name string, v0 int) {
 			d.fin = append(d.fin, name)
 			return
 		}
-		d.line("deliver", name, E{"n": v - v0})
+		thr := "x"
+		if d.handler != nil && gid() == d.hGid {
+			thr = "h"
+		}
+		d.line("deliver", name, E{"n": v - v0, "thr": thr})
 		if f := d.inCb; f != nil {
 			f(name)
+		}
+		if d.handler != nil {
+			select {
+			case d.delivered <- struct{}{}:
+			default:
+			}
 		}
 	}})
 }
@@ -93,7 +106,22 @@ func (d *c10Director) next() string {
 	}
 }
 
-func (d *c10Director) one(sc *c10Sched, nsubs int, mode string, mapped bool) {
+// everything posted to the handler so far has run when this returns (bounded)
+func (d *c10Director) settle() bool {
+	if d.handler == nil {
+		return true
+	}
+	ch := make(chan struct{}, 1)
+	go d.handler.Post(func() { ch <- struct{}{} })
+	select {
+	case <-ch:
+		return true
+	case <-time.After(5 * time.Second):
+		return false
+	}
+}
+
+func (d *c10Director) one(sc *c10Sched, nsubs int, mode string, mapped, useHandler bool) {
 	d.run++
 	names := []string{"A", "B", "C", "D"}[:nsubs]
 	d.subs = map[string]*fpgo.Subscription[int]{}
@@ -106,7 +134,18 @@ func (d *c10Director) one(sc *c10Sched, nsubs int, mode string, mapped bool) {
 	}
 	d.target = d.subPub
 	d.inCb = nil
-	d.line("reset", "-", E{"n": nsubs, "mode": mode})
+	d.handler = nil
+	if useHandler {
+		h := fpgo.Handler.New()
+		g := make(chan int64, 1)
+		h.Post(func() { g <- gid() })
+		d.hGid = <-g
+		d.delivered = make(chan struct{}, 64)
+		d.subPub.SubscribeOn(h)
+		d.handler = h
+		defer h.Close()
+	}
+	d.line("reset", "-", E{"n": nsubs, "mode": mode, "h": useHandler})
 	for _, n := range names {
 		d.subscribe(n, 100*factor)
 	}
@@ -182,6 +221,12 @@ func (d *c10Director) one(sc *c10Sched, nsubs int, mode string, mapped bool) {
 			}
 			if state == "deliver" {
 				advance() // the callback writes its own line (and, in callback mode, makes the changes that follow)
+				if d.handler != nil { // posted to the handler: the step is complete when the callback has run there
+					select {
+					case <-d.delivered:
+					case <-time.After(5 * time.Second):
+					}
+				}
 			}
 		case "sub", "unsub":
 			if !inline[i] {
@@ -191,8 +236,8 @@ func (d *c10Director) one(sc *c10Sched, nsubs int, mode string, mapped bool) {
 			for k := 0; k < 8 && (state == "snap" || state == "deliver"); k++ { // whatever the real call still does is written down
 				advance()
 			}
-			if state == "lost" {
-				d.line("lost", "-", E{"why": "the publishing goroutine neither reached a hook point nor returned within 3 s"})
+			if state == "lost" || !d.settle() {
+				d.line("lost", "-", E{"why": "the publishing goroutine neither reached a hook point nor returned (or the handler stopped running what is posted)"})
 				return
 			}
 		}
@@ -203,6 +248,7 @@ func (d *c10Director) one(sc *c10Sched, nsubs int, mode string, mapped bool) {
 	d.fin = []string{}
 	d.second = true
 	pub.Publish(200)
+	d.settle()
 	d.second = false
 	d.line("end", "-", E{"final": d.fin})
 }
@@ -232,11 +278,17 @@ func c10Direct(args []string) error {
 			return err
 		}
 		n++
-		d.one(&sc, nsubs, "other", false)
-		d.one(&sc, nsubs, "callback", false)
+		d.one(&sc, nsubs, "other", false, false)
+		d.one(&sc, nsubs, "callback", false, false)
 		if n%3 == 0 {
-			d.one(&sc, nsubs, "other", true)
-			d.one(&sc, nsubs, "callback", true)
+			d.one(&sc, nsubs, "other", true, false)
+			d.one(&sc, nsubs, "callback", true, false)
+		}
+		// SubscribeOn: every delivery is posted to a handler and must run there, exactly once, the same subscriptions
+		if n%2 == 0 {
+			d.one(&sc, nsubs, "other", n%4 == 0, true)
+		} else {
+			d.one(&sc, nsubs, "callback", n%4 == 1, true)
 		}
 		return nil
 	})
